@@ -135,11 +135,16 @@ func c18() *core.Check {
 		// dollar tags: other letter case of the tag inside the body; long tags with cut-off closers
 		us = append(us, gen.RangeUnits("dcase", uint64(len(c18CaseTags)*3125), 5000, "")...)
 		us = append(us, gen.RangeUnits("dlong", uint64(len(c18LongTags)*625), 5000, "")...)
+		// bodies over {delimiter, backslash, x, a byte >= 0x80, the last byte of a
+		// UTF-8 character} (multi-byte "escape" handling in front of a backslash run)
+		for fi := range litForms {
+			us = append(us, gen.RangeUnits("body5", gen.Pow(5, 6), 16000, strconv.Itoa(fi))...)
+		}
 		return us
 	}
 	return &core.Check{
 		ID: "C18",
-		Rule: "for every literal form (real ' \" `, virtual quote in the four quoted modes, n' N' e' E' u&' U&', @' @\" @` @@' @@`) bodies over {delimiter, backslash, x, other quote} exhaustively up to length 7 (thorough 11) and periodic bodies U.V.U.V for all U,V up to length 3 (5), behind nine SQL prefixes (incl. backslashes before the opener); q-quotes for all 223 delimiter bytes >= 33 x bodies over {b, close(b), ', x} up to 5 (7), q/Q/nq/Nq; dollar quotes with tags of length 0-3 x bodies over {$, tag letter, x, y} up to 6 (9); the same literals embedded in random SQL; backslash runs of 29-36, 61-66, 127-130, 255-258, 1023-1025 and 4097 in front of a delimiter for every form; q-quotes whose delimiter byte is the lead byte of a multi-byte UTF-8 character with bodies over {lead byte, continuation bytes, ', x, whole character}; dollar tags with the tag in another letter case inside the body, and tags of 2-256 letters with cut-off / extended closers; virtual-quote literals additionally on a state that has been through the earlier readings of the cascade. " +
+		Rule: "for every literal form (real ' \" `, virtual quote in the four quoted modes, n' N' e' E' u&' U&', @' @\" @` @@' @@`) bodies over {delimiter, backslash, x, other quote} exhaustively up to length 7 (thorough 11) and periodic bodies U.V.U.V for all U,V up to length 3 (5), behind nine SQL prefixes (incl. backslashes before the opener); q-quotes for all 223 delimiter bytes >= 33 x bodies over {b, close(b), ', x} up to 5 (7), q/Q/nq/Nq; dollar quotes with tags of length 0-3 x bodies over {$, tag letter, x, y} up to 6 (9); the same literals embedded in random SQL; bodies of length 6 over {delimiter, backslash, x, 0xA9, U+00E9} for every form; backslash runs of 29-36, 61-66, 127-130, 255-258, 1023-1025 and 4097 in front of a delimiter for every form; q-quotes whose delimiter byte is the lead byte of a multi-byte UTF-8 character with bodies over {lead byte, continuation bytes, ', x, whole character}; dollar tags with the tag in another letter case inside the body, and tags of 2-256 letters with cut-off / extended closers; virtual-quote literals additionally on a state that has been through the earlier readings of the cascade. " +
 			"The string token (content start, content end taken from the scan offset after the token, closed?, open/close marks, resume offset) is compared with the first-terminator oracle. Non-trivial = bodies holding a delimiter or backslash; distinct by input+form.",
 		Plan: plan,
 		Gen: func(w *core.Worker, u core.Unit, emit func(core.Case)) {
@@ -217,6 +222,15 @@ func c18() *core.Check {
 					}
 					op := "$" + tag + "$"
 					emit(core.Case{In: pre + op + body, Kind: "dollar", A: int64(len(pre) + len(op)), S: op})
+				}
+			case "body5":
+				fi, _ := strconv.Atoi(u.Arg)
+				f := litForms[fi]
+				al := []string{string([]byte{f.delim}), "\\", "x", "\xa9", "\xc3\xa9"}
+				var buf []byte
+				for i := u.Lo; i < u.Hi; i++ {
+					buf = gen.Enum(al, 6, i, buf)
+					emitLit(fi, string(buf), int(i), emit)
 				}
 			case "bsrun":
 				for i := u.Lo; i < u.Hi; i++ {
